@@ -205,6 +205,8 @@ type Endpoint struct {
 	// counters
 	PostShutdownWrites int
 	PostShutdownDials  int
+	// ShutdownDelay makes Transport.Shutdown take that long.
+	ShutdownDelay time.Duration
 }
 
 var _ memberlist.NodeAwareTransport = (*Endpoint)(nil)
@@ -295,17 +297,31 @@ func (e *Endpoint) DialAddressTimeout(a memberlist.Address, timeout time.Duratio
 }
 
 func (e *Endpoint) Shutdown() error {
+	// like a real transport, tearing the listeners down may take a moment
+	if d := e.ShutdownDelay; d > 0 {
+		time.Sleep(d)
+	}
 	e.mu.Lock()
 	e.shutdown = true
 	e.mu.Unlock()
 	return nil
 }
 
+// IsShutdown reports whether Transport.Shutdown has completed.
+func (e *Endpoint) IsShutdown() bool { return e.isShutdown() }
+
 // Send lets a scripted peer emit a packet from this endpoint.
 func (e *Endpoint) Send(to string, b []byte) { e.net.sendPacket(e.addr, to, b) }
 
 // SendFrom injects a packet that claims an arbitrary source address.
 func (n *Network) SendFrom(src, to string, b []byte) { n.sendPacket(src, to, b) }
+
+// DeliverNow hands a packet to the destination at once, without a timer (for
+// moments at which virtual time cannot advance).
+func (n *Network) DeliverNow(src, to string, b []byte) {
+	n.emit(Event{Kind: "pkt", Src: src, Dst: to, Data: append([]byte(nil), b...)})
+	n.deliver(src, to, append([]byte(nil), b...))
+}
 
 // Dial lets a scripted peer open a stream from this endpoint.
 func (e *Endpoint) Dial(to string, timeout time.Duration) (*Conn, error) {
